@@ -72,6 +72,11 @@ func Generate(t *rapid.T, cfg *Config) *Program {
 	if g.needIdent {
 		parts.Funcs = append(parts.Funcs, "func identInt(x int) int { return x }\n")
 	}
+	itypes, ifuncs := g.idiomDecls()
+	parts.Types = append(parts.Types, itypes...)
+	for _, h := range ifuncs {
+		parts.Funcs = append(parts.Funcs, strings.TrimSuffix(h, "\n"))
+	}
 	for _, h := range g.newHelpers() {
 		parts.Funcs = append(parts.Funcs, strings.TrimSuffix(h, "\n"))
 	}
